@@ -288,7 +288,7 @@ def gen_case(rng, tier, op=None, lens=None, dtype=None, recv=None):
         st = [rng.randint(0, c_) for _ in range(r_)]
         return {"op": op, "dtype": dtype, "shape": [r_, c_], "vals": gen.values(rng, dtype, r_ * c_, "small").tolist(), "starts": st, "ends": [rng.randint(s, c_) for s in st]}
     lens_ = L()
-    a = spec(rng, lens_, dtype, rv())
+    a = spec(rng, lens_, dtype, rv(), "sparse" if op in ("nonzero", "padded") and rng.random() < 0.8 else "small")
     c = {"op": op, "a": a}
     tot = sum(lens_)
     if op == "like":
